@@ -1,5 +1,7 @@
 import SurfModel.Proto
 import SurfModel.Kitty
+import SurfModel.KittyStream
 def main : IO Unit := SurfModel.Proto.serve fun
-  | "c11" :: rest => SurfModel.Kitty.handle rest
+  -- `model` requests are computed by the streaming handler model (payload through the `Base64Encoder` model)
+  | "c11" :: rest => SurfModel.KittyStream.handle rest
   | _ => "bad-op"
